@@ -36,6 +36,12 @@ def _simple(e: ast.expr) -> bool:
     return False
 
 
+def _is_enum_like(a: ast.Attribute) -> bool:
+    """`Name.MEMBER` with both parts capitalised the way classes and their constants are: a value that cannot change between
+    the call and the use"""
+    return isinstance(a.value, ast.Name) and a.value.id[:1].isupper() and a.attr.isupper()
+
+
 def _loop_level(stmts: List[ast.stmt], kinds) -> bool:
     """does a statement of one of `kinds` (Break/Continue) belong to *this* loop level?"""
     for s in stmts:
@@ -93,6 +99,27 @@ class Desugar(ast.NodeTransformer):
         for s in module_tree.body:
             if isinstance(s, ast.FunctionDef) and not s.decorator_list and self._inlinable_generator(s):
                 self.generators[s.name] = s
+        self.context_managers: Dict[str, ast.Try] = {}
+        for s in module_tree.body:
+            if isinstance(s, ast.FunctionDef):
+                tr = self._context_manager_try(s)
+                if tr is not None and sum(1 for x in module_tree.body if isinstance(x, (ast.FunctionDef, ast.ClassDef)) and x.name == s.name) == 1:
+                    self.context_managers[s.name] = tr
+        # private @contextmanager methods, defined once in the module, that a `with self._m(simple arguments):` can be replaced by
+        self.method_context_managers: Dict[str, tuple] = {}
+        seen_methods: Dict[str, int] = {}
+        for c in module_tree.body:
+            if isinstance(c, ast.ClassDef):
+                for s in c.body:
+                    if isinstance(s, (ast.FunctionDef, ast.AsyncFunctionDef)):
+                        seen_methods[s.name] = seen_methods.get(s.name, 0) + 1
+        for c in module_tree.body:
+            if isinstance(c, ast.ClassDef):
+                for s in c.body:
+                    if isinstance(s, ast.FunctionDef) and s.name.startswith("_") and not s.name.startswith("__") and seen_methods[s.name] == 1:
+                        tr = self._context_manager_try(s, method=True)
+                        if tr is not None:
+                            self.method_context_managers[s.name] = (tr, [a.arg for a in s.args.args[1:]])
         self.carriers = {c.name: info for c in module_tree.body if isinstance(c, ast.ClassDef) for info in [self._carrier_info(c)] if info is not None}
         self.class_is_carrier = False
         self.class_tables: List[Dict[str, ast.expr]] = []
@@ -730,6 +757,70 @@ class Desugar(ast.NodeTransformer):
         self.count["walrus"] += 1
         return asg
 
+    def visit_With(self, node: ast.With):
+        """`with cm(): BODY` where cm is a module-level @contextmanager generator without parameters whose body is one
+        `try: yield  except ...: ...  [finally: ...]`: the try statement with BODY in place of the yield"""
+        if self.func_stack and len(node.items) == 1 and node.items[0].optional_vars is None:
+            ce = node.items[0].context_expr
+            if isinstance(ce, ast.Call) and isinstance(ce.func, ast.Name) and not ce.args and not ce.keywords and ce.func.id in self.context_managers \
+                    and not self._is_local(ce.func.id):
+                tr = self.context_managers[ce.func.id]
+                jumps = any(isinstance(x, (ast.Return, ast.Break, ast.Continue)) for st in node.body for x in ast.walk(st))
+                names = {x.id for st in tr.handlers + tr.orelse + tr.finalbody for x in ast.walk(st) if isinstance(x, ast.Name)} | \
+                        {h.name for h in tr.handlers if h.name}
+                clash = any(self._is_local(nm) for nm in names)          # the manager's names must mean the same thing here
+                if not (jumps and tr.orelse) and not clash:
+                    new = copy.deepcopy(tr)
+                    new.body = node.body
+                    ast.copy_location(new, node)
+                    self.count["contextmanager"] = self.count.get("contextmanager", 0) + 1
+                    r = self.visit(new)
+                    return r
+            if isinstance(ce, ast.Call) and isinstance(ce.func, ast.Attribute) and isinstance(ce.func.value, ast.Name) and ce.func.value.id == "self" \
+                    and ce.func.attr in self.method_context_managers and self.class_tables and not ce.keywords \
+                    and all(_simple(a) for a in ce.args) and hasattr(self.func_stack[-1], "args") and self.func_stack[-1].args.args \
+                    and self.func_stack[-1].args.args[0].arg == "self":
+                tr, params = self.method_context_managers[ce.func.attr]
+                jumps = any(isinstance(x, (ast.Return, ast.Break, ast.Continue)) for st in node.body for x in ast.walk(st))
+                names = ({x.id for st in tr.handlers + tr.orelse + tr.finalbody for x in ast.walk(st) if isinstance(x, ast.Name)} |
+                         {h.name for h in tr.handlers if h.name}) - set(params) - {"self"}
+                clash = any(self._is_local(nm) for nm in names)
+                # the arguments are evaluated once, up front: they must not be re-bound by the body
+                stored = {x.id for st in node.body for x in ast.walk(st) if isinstance(x, ast.Name) and isinstance(x.ctx, (ast.Store, ast.Del))}
+                arg_names = {x.id for a in ce.args for x in ast.walk(a) if isinstance(x, ast.Name)}
+                attr_args = any(isinstance(x, ast.Attribute) for a in ce.args for x in ast.walk(a) if not (isinstance(a, ast.Attribute) and _is_enum_like(a)))
+                if len(params) == len(ce.args) and not (jumps and tr.orelse) and not clash and not (stored & arg_names) and not attr_args:
+                    new = _Subst(dict(zip(params, ce.args))).visit(copy.deepcopy(tr))
+                    new.body = node.body
+                    ast.copy_location(new, node)
+                    ast.fix_missing_locations(new)
+                    self.count["contextmanager"] = self.count.get("contextmanager", 0) + 1
+                    return self.visit(new)
+        return self.generic_visit(node)
+
+    @staticmethod
+    def _context_manager_try(fn: ast.FunctionDef, method: bool = False) -> Optional[ast.Try]:
+        if len(fn.decorator_list) != 1 or fn.args.posonlyargs or fn.args.kwonlyargs or fn.args.vararg or fn.args.kwarg or fn.args.defaults:
+            return None
+        if not method and fn.args.args:
+            return None
+        if method and (not fn.args.args or fn.args.args[0].arg != "self" or
+                       any(isinstance(x, ast.Name) and isinstance(x.ctx, (ast.Store, ast.Del)) and x.id in {a.arg for a in fn.args.args} for x in ast.walk(fn))):
+            return None
+        dn = fn.decorator_list[0]
+        if not (isinstance(dn, (ast.Name, ast.Attribute)) and (dn.id if isinstance(dn, ast.Name) else dn.attr) == "contextmanager"):
+            return None
+        body = [s_ for s_ in fn.body if not (isinstance(s_, ast.Expr) and isinstance(s_.value, ast.Constant))]
+        if len(body) != 1 or not isinstance(body[0], ast.Try):
+            return None
+        tr = body[0]
+        if len(tr.body) != 1 or not (isinstance(tr.body[0], ast.Expr) and isinstance(tr.body[0].value, ast.Yield) and tr.body[0].value.value is None):
+            return None
+        rest = tr.handlers + tr.orelse + tr.finalbody
+        if any(isinstance(x, (ast.Yield, ast.YieldFrom, ast.Return)) for st in rest for x in ast.walk(st)):
+            return None
+        return tr
+
     def visit_If(self, node: ast.If):
         pre = self._hoist_walrus(node, "test")
         node = self.generic_visit(node)
@@ -891,8 +982,77 @@ class Desugar(ast.NodeTransformer):
         return None
 
 
-def desugar_module(tree: ast.Module) -> Dict[str, int]:
+def _expand_module_dictcomps(tree: ast.Module) -> int:
+    """NAME = {k(row): v(row) for a, b in TABLE} at module level, TABLE a module-level tuple of tuples of simple expressions
+    bound once: the dict literal it builds"""
+    counts: Dict[str, int] = {}
+    for s in tree.body:
+        for t_ in (s.targets if isinstance(s, ast.Assign) else [s.target] if isinstance(s, (ast.AnnAssign, ast.AugAssign)) else []):
+            if isinstance(t_, ast.Name):
+                counts[t_.id] = counts.get(t_.id, 0) + 1
+    tables = {}
+    for s in tree.body:
+        if isinstance(s, (ast.Assign, ast.AnnAssign)) and s.value is not None:
+            tg = s.targets if isinstance(s, ast.Assign) else [s.target]
+            if len(tg) == 1 and isinstance(tg[0], ast.Name) and counts.get(tg[0].id) == 1 and isinstance(s.value, (ast.Tuple, ast.List)) \
+                    and 0 < len(s.value.elts) <= 4 * MAX_ROWS and all(_simple(x) for x in s.value.elts):
+                tables[tg[0].id] = s.value
+    n = 0
+    for s in tree.body:
+        if not (isinstance(s, (ast.Assign, ast.AnnAssign)) and isinstance(s.value, ast.DictComp)):
+            continue
+        dc = s.value
+        if len(dc.generators) != 1:
+            continue
+        g = dc.generators[0]
+        if g.ifs or g.is_async or not isinstance(g.iter, ast.Name) or g.iter.id not in tables:
+            continue
+        keys, vals = [], []
+        ok = True
+        for row in tables[g.iter.id].elts:
+            if isinstance(g.target, ast.Name):
+                mp = {g.target.id: row}
+            elif isinstance(g.target, ast.Tuple) and isinstance(row, ast.Tuple) and len(row.elts) == len(g.target.elts) and all(isinstance(x, ast.Name) for x in g.target.elts):
+                mp = {x.id: r for x, r in zip(g.target.elts, row.elts)}
+            else:
+                ok = False
+                break
+            keys.append(_Subst(mp).visit(copy.deepcopy(dc.key)))
+            vals.append(_Subst(mp).visit(copy.deepcopy(dc.value)))
+        if not ok:
+            continue
+        s.value = ast.copy_location(ast.Dict(keys=keys, values=vals), dc)
+        ast.fix_missing_locations(s)
+        n += 1
+    return n
+
+
+def exported_generators(tree: ast.Module) -> Dict[str, tuple]:
+    """module-level generator helpers that could be expanded at a `for` in another module: name -> (def, global names it uses)"""
+    import builtins
+    out: Dict[str, tuple] = {}
+    for s in tree.body:
+        if isinstance(s, ast.FunctionDef) and not s.decorator_list and Desugar._inlinable_generator(s) and \
+                sum(1 for x in tree.body if isinstance(x, (ast.FunctionDef, ast.ClassDef)) and x.name == s.name) == 1:
+            a = s.args
+            local = {p.arg for p in a.posonlyargs + a.args + a.kwonlyargs} | \
+                    {x.id for b in s.body for x in ast.walk(b) if isinstance(x, ast.Name) and isinstance(x.ctx, (ast.Store, ast.Del))}
+            free = {x.id for b in s.body for x in ast.walk(b) if isinstance(x, ast.Name) and isinstance(x.ctx, ast.Load)} - local
+            free = {n for n in free if not hasattr(builtins, n)}
+            # annotations and defaults are evaluated in the defining module: defaults that are not constants keep the helper opaque
+            if all(isinstance(d, ast.Constant) for d in list(a.defaults) + [d for d in a.kw_defaults if d is not None]):
+                out[s.name] = (s, free)
+    return out
+
+
+def desugar_module(tree: ast.Module, foreign: Optional[Dict[str, ast.FunctionDef]] = None) -> Dict[str, int]:
+    nd = _expand_module_dictcomps(tree)
     d = Desugar(tree)
+    defined = {x.name for x in tree.body if isinstance(x, (ast.FunctionDef, ast.AsyncFunctionDef, ast.ClassDef))}
+    for name, fn in (foreign or {}).items():
+        if name not in defined and name not in d.generators:
+            d.generators[name] = fn
+    d.count["dictcomp"] = nd
     d.visit(tree)
     ast.fix_missing_locations(tree)
     return d.count
